@@ -36,7 +36,7 @@ func cs(s string) string {
 				break
 			}
 		}
-		if same && s[0] >= 'A' && s[0] <= 'z' {
+		if same && s[0] > ' ' && s[0] <= '~' && s[0] != '"' {
 			return fmt.Sprintf(`(rep "%c"%%byte %d%%N)`, s[0], len(s))
 		}
 	}
@@ -373,4 +373,6 @@ func runC16(r *hk.Run) {
 	runResends(r, rng.Fork())
 	runWriterInterleavings(r, rng.Fork())
 	runBursts(r, rng.Fork())
+	runFragments(r, rng.Fork())
+	runRedirects(r, rng.Fork())
 }
